@@ -67,6 +67,16 @@ module.exports = mk({
       r.stats.states++; r.stats.transitions++
       leaves.push({ fam: 'perm', key: 'file¦' + st + '¦' + verb + '¦' + file, code: `function main(a, b, c, s, o, h) { let x, y, i = 0; ${STMTS[st]} return x }`, config: cfg, file, desc: 'file' })
     }
+    // counts around the sizes at which a narrow counter would wrap or a list would be capped
+    for (const n of tier === 'thorough' ? [9, 10, 11, 99, 100, 101, 255, 256, 257, 1000, 65536] : [9, 10, 11, 255, 256, 257, 1000]) {
+      for (const [kind, stmt] of [['plus', 'x = a + b;'], ['method', 'x = a.trim();'], ['mixed', 'x = a + b; y = `${a}${b}`; x += a.concat(b);']]) {
+        for (const verb of [undefined, 'DEBUG']) {
+          const cfg = Object.assign({}, C.FULL); if (verb) cfg.telemetryVerbosity = verb
+          r.stats.states++; r.stats.transitions++
+          leaves.push({ fam: 'perm', key: 'count¦' + n + '¦' + kind + '¦' + verb, code: `function main(a, b, c, s, o, h) { let x, y, i = 0; ${(stmt + ' ').repeat(kind === 'mixed' ? Math.ceil(n / 3) : n)} return x }`, config: cfg, file: '/p/app.js', desc: 'count ' + n + ' ' + kind })
+        }
+      }
+    }
     return { leaves, stats: r.stats }
   },
   oracle ({ a, v, res, resp, leaf, config }) {
